@@ -329,6 +329,78 @@ def r_addconstraint(ctx):
            "add_constraint can complete without storing the constraint (appends per path: %s)" % sorted(normal), loc(fn, fn))
 
 
+def r_step_option_rejection(ctx):
+    """An option value that is not one of the documented ones is refused (ValueError) whatever the numeric arguments are -- also when one of them
+    is 0, the value for which a step may have a shortcut that returns before the option is looked at."""
+    from . import stepprog
+    spec_fns, sorts = load_spec()
+    steps = step_functions(ctx.repo, set(spec_fns))
+    n = 0
+    for name, fn in sorted(steps.items()):
+        srt = sorts.get(name)
+        if srt is None or "option" not in srt:
+            continue
+        scalars = [k for k, s0 in enumerate(srt) if s0 == "scalar"]
+        cases = [()] + [(k,) for k in scalars] + ([tuple(scalars)] if len(scalars) > 1 else [])
+        bad = None
+        for zeros in cases:
+            n += 1
+            try:
+                _r, out = stepprog.interpret(fn, srt, "\0none", ctx.repo, zeros=zeros)
+            except (SortError, AnalysisError) as e:
+                ctx.notes.append("R-STEPOPT: %s not unrolled (%s); the option dispatch is decided on the symbolic run of R-STEP only" % (name, e))
+                bad = None
+                break
+            if not out.startswith("raises ValueError"):
+                ps = params_of(fn)
+                bad = "with %s an unknown option value %s instead of being refused with a ValueError" % (
+                    ", ".join("%s = 0" % ps[k] for k in zeros) if zeros else "generic arguments", out)
+                break
+        ctx.ob("R-STEPOPT", "%s::unknown option refused for every numeric argument" % name, bad is None,
+               "an unknown option value raises ValueError, also when a numeric argument is 0" if bad is None else bad, loc(fn, fn))
+    ctx.count("option-rejection runs of steps", n)
+    return n
+
+
+def r_step_routes(ctx):
+    """C07, the route through a step: a step that records a sample of its own on a function (add_point) records it at a point that involves
+    something the step has just created -- at a point that is given to the step, the function may already have a value (and a gradient), and only
+    its oracle knows; a sample written next to it gives the function two values there."""
+    spec_fns, sorts = load_spec()
+    steps = step_functions(ctx.repo, set(spec_fns))
+    n = 0
+    for name, fn in sorted(steps.items()):
+        if name not in spec_fns:
+            continue
+        srt = sorts[name]
+        try:
+            probe, _o, _e = interpret(fn, srt, "\0none", ctx.repo)
+            opts = sorted(probe.option_literals) if "option" in srt else [None]
+        except (SortError, AnalysisError) as e:
+            ctx.notes.append("R-ROUTE: %s not interpretable (%s); R-STEP under C08 reports it" % (name, e))
+            continue
+        for opt in opts:
+            try:
+                ii, io, _e = interpret(fn, srt, opt, ctx.repo)
+            except (SortError, AnalysisError) as e:
+                ctx.notes.append("R-ROUTE: %s[%s] not interpretable (%s); R-STEP under C08 reports it" % (name, opt, e))
+                continue
+            fresh = {a for a, _s in ii.fresh_atoms}
+            bad = None
+            for ev in ii.events:
+                if ev[0] == "rec" and isinstance(ev[2], TupleV) and isinstance(ev[2].items[0], PointV):
+                    n += 1
+                    if not (set(ev[2].items[0].atoms()) & fresh):
+                        bad = "records the sample %s on %s at the point %s, which is given to the step: if the function was evaluated there before, " \
+                              "it now has two values (and a differentiable one two gradients) at that point; only its oracle knows" % (ev[2], ev[1], ev[2].items[0])
+                        break
+            key = "%s[%s]" % (name, opt) if opt is not None else name
+            ctx.ob("R-ROUTE", key + "::own samples at new points only", bad is None,
+                   "every sample the step records itself sits at a point made from something the step created" if bad is None else bad, loc(fn, fn))
+    ctx.count("samples recorded by steps", n)
+    return n
+
+
 def run(ctx):
     spec_fns, sorts = load_spec()
     steps = step_functions(ctx.repo, set(spec_fns))
@@ -389,7 +461,8 @@ def run(ctx):
     del FALLBACKS[:]
     # the steps record through Function.add_point / add_constraint: these must register what they are given on every path
     from . import c07
-    c07.r_addpoint(ctx)
+    c07.with_system(ctx, c07.r_addpoint)
     r_addconstraint(ctx)
+    r_step_option_rejection(ctx)
     ctx.floor("step functions", len(steps), 8)
     ctx.floor("step paths", npaths, 10)
